@@ -73,6 +73,7 @@ func setup(env *runner.Env) error {
 	seeds = append(seeds, fieldSweep()...)
 	seeds = append(seeds, inflate()...)
 	seeds = append(seeds, shortLarge()...)
+	seeds = append(seeds, cutThenTrailer()...)
 	nAll = len(seeds)
 	if nBase == 0 {
 		return fmt.Errorf("empty corpus under %s", env.RepoDir)
